@@ -121,6 +121,10 @@ PackAgrees(e) ==
      /\ Len(e.packs) = 4 /\ Len(e.packs_rgb) = 2 /\ Len(e.unpacks) = 4 /\ Len(e.unpacks_rgb) = 2
      /\ e.arr16 = Pack(RgbaChannels, o, e.c16)
      /\ e.un16 = Unpack(RgbaChannels, o, e.c16)
+     \* 32-bit channels in an array: positions only
+     /\ e.arr32 = Pack(RgbaChannels, o, e.c32) /\ e.un32 = Unpack(RgbaChannels, o, e.c32)
+     \* the integer forms u8, u64, u128 over a byte-keeping order: the first byte is the most significant one, both ways
+     /\ Len(e.wide_out) = 6 /\ e.wide_out = e.wide_in
 
 TPack == /\ Rec[l].ev = "pack"
          /\ PackAgrees(Rec[l])
